@@ -3,6 +3,7 @@
 // usage: subj_pool <subject> <seed> <nops> [fail_at]
 //   subject: pool-{node,array,small}-{growing,fixed}   coll-{node,array,small}-{identity,log2}-{growing,fixed}
 // line format:  <pool|coll> <op> <args> | <env> | <result> | <upstream events> | <state>
+#include <algorithm>
 #include <cstdio>
 #include <cstring>
 #include <memory>
@@ -211,6 +212,8 @@ static void run_pool(Rng& g, long nops, std::size_t node_size, std::size_t block
             O->forget(l.id);
         live.clear();
         *pool = std::move(*older);
+        if (!cursor_ok(pool->free_list_))
+            O->fail("C12 after move assignment the ordered free list's deallocation cursor is not a pair of neighbouring nodes of the target list");
         emit("pool move_assign" + ListKind<List>::proxies(pool->free_list_), "done", pool_state(*pool));
         long lk0 = Handlers::leak();
         auto a0 = Handlers::leak_amounts().size();
@@ -725,8 +728,59 @@ static void run_pool(Rng& g, long nops, std::size_t node_size, std::size_t block
         }
         else if (k < 88)
         { // move construction to a new object (placed below or above the blocks), then destroy the moved-from pool
+            if (g.chance(30))
+            { // ... of a pool whose free list is empty at that moment (an ordered list's cursor then sits between its two proxies)
+                for (int q = 0; q < 300 && !pool->free_list_.empty(); ++q)
+                {
+                    void* p = pool->try_allocate_node();
+                    if (!p)
+                        break;
+                    add_live(p, false, 1, ns, false, "pool.try_allocate_node");
+                    emit("pool try_alloc_node", fmt("ok %zu", R->off(p)), pool_state(*pool));
+                }
+            }
+            else if (PoolType::value && std::is_same<List, detail::ordered_free_memory_list>::value && g.chance(40))
+            { // ... or of an ordered list whose deallocation cursor sits in front of the END proxy while nodes are left: drain the list,
+              // give back the lowest node and the three highest (adjacent) ones, take the three as an array - the run that held the
+              // cursor leaves, the cursor is pushed past it
+                for (int q = 0; q < 300 && !pool->free_list_.empty(); ++q)
+                {
+                    void* p = pool->try_allocate_node();
+                    if (!p)
+                        break;
+                    add_live(p, false, 1, ns, false, "pool.try_allocate_node");
+                    emit("pool try_alloc_node", fmt("ok %zu", R->off(p)), pool_state(*pool));
+                }
+                std::vector<char*> singles;
+                for (auto& l : live)
+                    if (!l.array)
+                        singles.push_back(static_cast<char*>(l.p));
+                std::sort(singles.begin(), singles.end());
+                std::size_t n1 = singles.size();
+                if (pool->free_list_.empty() && n1 >= 5 && singles[n1 - 1] - singles[n1 - 2] == std::ptrdiff_t(ns)
+                    && singles[n1 - 2] - singles[n1 - 3] == std::ptrdiff_t(ns) && singles[0] + ns < singles[n1 - 3])
+                {
+                    for (char* victim : {singles[0], singles[n1 - 3], singles[n1 - 2], singles[n1 - 1]})
+                        for (std::size_t q = 0; q < live.size(); ++q)
+                            if (live[q].p == victim)
+                            {
+                                release(q);
+                                break;
+                            }
+                    void*       p = nullptr;
+                    std::string res = guarded([&] { p = pool->allocate_array(3); });
+                    if (res.empty())
+                    {
+                        add_live(p, true, 3, ns, false, "pool.allocate_array");
+                        res = fmt("ok %zu", R->off(p));
+                    }
+                    emit("pool alloc_array 3", res, pool_state(*pool));
+                }
+            }
             void* nm = R->place_object(sizeof(Pool), alignof(Pool), g.chance(50));
             Pool* np = ::new (nm) Pool(std::move(*pool));
+            if (!cursor_ok(np->free_list_))
+                O->fail("C12 after move construction the ordered free list's deallocation cursor is not a pair of neighbouring nodes of the new list");
             emit("pool move" + ListKind<List>::proxies(np->free_list_), "done", pool_state(*np));
             long lk0 = Handlers::leak();
             auto a0 = Handlers::leak_amounts().size();
@@ -848,6 +902,14 @@ static void run_pool(Rng& g, long nops, std::size_t node_size, std::size_t block
                 if (!l.array && ns > 1)
                 {
                     probe("inside-live-node", static_cast<char*>(l.p) + 1 + g.below(ns - 1));
+                    // every kind of interior offset: odd, the alignments up to max_alignment (a pointer that is aligned for the
+                    // pool but not on a node boundary), the middle, the last byte
+                    std::vector<std::size_t> offs;
+                    for (std::size_t d : {std::size_t(1), std::size_t(2), std::size_t(4), std::size_t(8), std::size_t(16), std::size_t(32), ns / 2, ns - 1})
+                        if (d > 0 && d < ns && std::find(offs.begin(), offs.end(), d) == offs.end())
+                            offs.push_back(d);
+                    for (std::size_t d : offs)
+                        probe("inside-live-node-at", static_cast<char*>(l.p) + d);
                     break;
                 }
         }
@@ -969,6 +1031,9 @@ static void run_coll(Rng& g, long nops, std::size_t max_node, std::size_t block_
             O->forget(l.id);
         live.clear();
         *c = std::move(*older);
+        for (std::size_t q = 0; q < c->pools_.no_elements_; ++q)
+            if (!cursor_ok(c->pools_.array_[q]))
+                O->fail(fmt("C12 after move assignment of the collection the deallocation cursor of ordered list %zu is not a pair of neighbouring nodes", q));
         emit("coll move_assign", "done", coll_state(*c));
         long lk0 = Handlers::leak();
         auto a0 = Handlers::leak_amounts().size();
@@ -1287,6 +1352,9 @@ static void run_coll(Rng& g, long nops, std::size_t max_node, std::size_t block_
         {
             void* nm = R->place_object(sizeof(Coll), alignof(Coll), g.chance(50));
             Coll* nc = ::new (nm) Coll(std::move(*c));
+            for (std::size_t q = 0; q < nc->pools_.no_elements_; ++q)
+                if (!cursor_ok(nc->pools_.array_[q]))
+                    O->fail(fmt("C12 after move construction of the collection the deallocation cursor of ordered list %zu is not a pair of neighbouring nodes", q));
             emit("coll move", "done", coll_state(*nc));
             long lk0 = Handlers::leak();
             auto a0 = Handlers::leak_amounts().size();
